@@ -124,8 +124,12 @@ let rec gen_act depth : act =
   Act (id, rcond 15, spec, ins, outs, params, gen_setup (), catches, timeouts)
 and gen_timeouts depth =
   let used = ref [] in
-  List.filter_map (fun _ -> let on = 1 + rnd 3 in if List.mem on !used then None else begin used := on :: !used;
-    Some (Tmo (nat_of_int on, z_of_int (on * 1000), List.init (rnd 3) (fun _ -> gen_step depth true))) end) (List.init (1 + rnd 2) (fun _ -> ()))
+  List.filter_map (fun _ ->
+    (* mostly seconds; one rule in six in minutes (a tick of a minute and more exists in the timeout corpus) *)
+    let name = if !tmo_mode && rnd 6 = 0 then "1m" else Printf.sprintf "%ds" (1 + rnd 3) in
+    let (on, lim) = limit_of_name name in
+    if List.mem on !used then None else begin used := on :: !used;
+    Some (Tmo (nat_of_int on, lim, List.init (rnd 3) (fun _ -> gen_step depth true))) end) (List.init (1 + rnd 2) (fun _ -> ()))
 and gen_catches depth =
   List.init (1 + rnd 3) (fun _ -> Catch ((match rnd 4 with 0 -> None | x -> Some (nat_of_int x)), List.init (rnd 3) (fun _ -> gen_step depth true)))
 and gen_step depth simple : step =
@@ -201,7 +205,7 @@ let gen_main n seed0 maxops out =
          let r = rnd 100 in
          let pick l = List.nth l (rnd (List.length l)) in
          if has_tmo && (if !tmo_mode then rnd 2 = 0 else rnd 5 = 0) then begin
-           let adv = (match rnd 4 with 0 -> 400 | 1 -> 1000 | 2 -> 1100 | _ -> 2500) in
+           let adv = (if !tmo_mode && rnd 7 = 0 then (if rnd 2 = 0 then 58000 else 61000) else match rnd 4 with 0 -> 400 | 1 -> 1000 | 2 -> 1100 | _ -> 2500) in
            ops := Json.Obj [("tick", Json.Int adv)] :: !ops;
            incr nops; bump "tick";
            e := drain_track (do_tick !e (z_of_int adv))
@@ -306,7 +310,7 @@ let oev_of_line (l : string) : oev option =
   | "X" :: t :: _ -> Some (ObPop (nat_of_int (int_of_string t)))
   | "Q" :: _ -> Some ObQuiet
   | "F" :: t :: on :: now :: start :: limit :: _ ->
-      let onk = (try int_of_string (String.sub on 0 (String.length on - 1)) with _ -> 0) in
+      let onk = (try fst (limit_of_name on) with _ -> 0) in
       Some (ObFire (nat_of_int (int_of_string t), nat_of_int onk, z_of_int (int_of_string now), z_of_int (int_of_string start), z_of_int (int_of_string limit)))
   | _ -> None
 let oracle_main cases_path trace_path =
